@@ -4,10 +4,10 @@ package main
 
 import (
 	"bytes"
-	"sort"
 	"context"
 	"fmt"
 	"os/exec"
+	"sort"
 	"strings"
 	"sync"
 	"time"
